@@ -154,6 +154,18 @@ def build_logic(am: AM, rec: Rec, engine="sync", sched=None):
             if not inv.src:
                 continue
             name = "svc%d_%s" % (inv.src, inv.iid.replace(".", "_"))
+            if getattr(inv, "machine", False) and engine == "async":
+                # a child machine that takes inv.dur ms to reach its top-level final state; the parent's managing task
+                # polls every 5 ms, so a child finishing 2 ms before a multiple of 5 is noticed exactly at inv.dur
+                from xstate_statemachine import create_machine
+
+                async def child_hello(i, ctx, ev, ad, inv=inv):
+                    rec.svc_calls.append((inv.iid, {}))
+                    rec.log.append(("svc", inv.iid))
+                child_cfg = {"id": "child_" + inv.iid.replace(".", "_"), "initial": "run", "context": {},
+                             "states": {"run": {"entry": ["child_hello"], "after": {str(max(1, inv.dur - 2)): "fin"}}, "fin": {"type": "final"}}}
+                services[name] = create_machine(child_cfg, logic=MachineLogic(actions={"child_hello": child_hello}))
+                continue
             if engine == "async":
                 async def svc(i, ctx, ev, inv=inv):
                     rec.svc_calls.append((inv.iid, dict(ev.payload)))
